@@ -30,7 +30,7 @@ Resv  == {"orig", "flipped"}
 Index == {"orig", "otherlive", "unknown", "reverse"}
         \* otherlive: local index of another live tunnel of the node; reverse: the index the PEER uses for
         \* this tunnel (what an unencrypted recv_error names)
-Ctr   == {"orig", "fresh", "seen"}
+Ctr   == {"orig", "fresh", "seen", "ceiling", "max"}   \* ceiling: 2^64-1-2^40 (RejectAfterMessages), max: 2^64-1: far ahead of the window
         \* fresh: another counter value not yet accepted; seen: the packet is delivered after the genuine one
 Body  == {"orig", "bitflip", "headeronly", "short", "cut1", "extended", "otherbody"}
 Tag   == {"orig", "flipped"}
